@@ -21,11 +21,20 @@ unsigned char nondet_uchar(void);
   size_t p##_off = nondet_size_t(); __CPROVER_assume(p##_off <= p##_n - (N)); \
   p = p##_base + p##_off;
 /* [p, e) is an arbitrary sub-range of a heap buffer of arbitrary size */
+#ifdef VERIF_REPLAY
+/* replay: the range is a whole, exactly sized heap buffer whose bytes are those of the named array verif_in */
+#define RRANGE(p, e) \
+  VERIF_REPLAY_FILL(verif_in, verif_in_len) size_t p##_n = verif_in_len; size_t p##_off = 0; size_t p##_eoff = p##_n; \
+  uint8_t* p##_base = (uint8_t*)malloc(p##_n ? p##_n : 1); __CPROVER_assume(p##_base != 0); \
+  __CPROVER_array_replace(p##_base, verif_in); \
+  p = p##_base; e = p##_base + p##_n;
+#else
 #define RRANGE(p, e) \
   size_t p##_n = nondet_size_t(); __CPROVER_assume(p##_n <= VERIF_MAXBUF); \
   uint8_t* p##_base = (uint8_t*)malloc(p##_n ? p##_n : 1); __CPROVER_assume(p##_base != 0); \
   size_t p##_off = nondet_size_t(); size_t p##_eoff = nondet_size_t(); __CPROVER_assume(p##_off <= p##_eoff && p##_eoff <= p##_n); \
   p = p##_base + p##_off; e = p##_base + p##_eoff;
+#endif
 /* a byte vector of arbitrary size */
 #ifdef VERIF_REPLAY
 #define BYTEVEC(v) VERIF_REPLAY_FILL(verif_in, verif_in_len) (v).size = verif_in_len; (v).cap = VERIF_REPLAY_N; (v).data = verif_in;
